@@ -29,7 +29,7 @@ def info(tier):
         "rule": "scalar recipes (directed: every public scalar node kind x 4 variable-list relations; random: weighted "
         "grammar, depth<=4, seeded) evaluated at 3 regular points (margin>=1e-2, |.|<=1e6) through 6 routes; a case is "
         "non-trivial if it has >=2 operator nodes; distinct = distinct canonical recipe+V hashes",
-        "required_cells": X.required_cells(),
+        "required_cells": X.required_cells() + [c for c, _, _ in same_name_batches()],
         "assumptions": [
             "NumPy ufuncs are the arithmetic substrate of both optyx and the reference",
             "points are regular (distance to every singular set >= 1e-2); irregular points are excluded, not judged",
@@ -179,10 +179,76 @@ def run_case(case, rec, lowered=True):
     rec.sample(X.show(case))
 
 
+SN_DECLS = [{"k": "vec", "name": "x", "n": 6}, {"k": "mat", "name": "A", "r": 2, "c": 4}, {"k": "var", "name": "s"}]
+
+
+def same_name_batches():
+    """Groups of *different* views that carry the same generated name (x[0:6], x[0:6:2], x[::-1] are all "x[0:6]";
+    A[0,0:2], A[0,2:4], A[0,1:] are all "A[0,:]"): every reduction of every view is compiled against ONE variable
+    list, one after the other, so that anything keyed by the view's name instead of its elements shows up."""
+    x, A_ = ["vec", "x"], ["mat", "A"]
+    groups = [
+        [["slice", x, 0, 6, None], ["slice", x, 0, 6, 2], ["slice", x, None, None, -1], ["slice", x, 0, 6, 3], ["slice", x, 5, None, -2]],
+        [["slice", x, 1, 5, None], ["slice", x, 1, 5, 2], ["slice", x, 1, 5, 3]],
+        [["rows", A_, 0, 0, 2, None], ["rows", A_, 0, 2, 4, None], ["rows", A_, 0, 1, None, None], ["row", A_, 0], ["rows", A_, 0, None, None, -1]],
+        [["cols", A_, 1, 0, 1, None], ["cols", A_, 1, 1, 2, None], ["col", A_, 1]],
+    ]
+    forms = [
+        ("sum", lambda v, n: ["sum", v]),
+        ("lc", lambda v, n: ["matmul", ["arr", [1.0 + 0.5 * i for i in range(n)]], v]),
+        ("dot-self", lambda v, n: ["dot", v, v]),
+        ("norm2", lambda v, n: ["norm", v, 2, "method"]),
+        ("norm1", lambda v, n: ["norm", v, 1, "method"]),
+        ("powsum", lambda v, n: ["sum", ["vpow", v, 3]]),
+        ("unarysum", lambda v, n: ["sum", ["vfn", "exp", v]]),
+        ("qf", lambda v, n: ["qf", v, [[1.0 + (i == j) + 0.25 * i - 0.5 * j for j in range(n)] for i in range(n)]]),
+        ("sum+const", lambda v, n: ["bin", "+", ["sum", v], ["raw", 1.0, "float"]]),
+    ]
+    out = []
+    for gi, g in enumerate(groups):
+        for fname, mk in forms:
+            out.append((f"same-name-views:{gi}:{fname}", g, mk))
+    return out
+
+
+def run_same_name_batch(rec, rng, cell, views, mk):
+    from optyx.core import compiler as C
+
+    D = R.Decls(SN_DECLS)
+    V = R.natural_sorted(D.all_var_names())
+    pt = {nm: round(rng.uniform(0.4, 1.9), 4) for nm in V}
+    x = B.point_array(V, pt)
+    b = B.Builder(SN_DECLS)
+    Vobjs = b.variables(V)
+    it = R.Interp(D, R.SetAlg())
+    for vnode in views:
+        node = mk(vnode, len(it.vnames(vnode)))
+        rec.case({"n": node, "batch": cell})
+        want, t = R.ref_value(D, node, pt)
+        try:
+            e = b.S(node)
+            got = {"compile": _scalar(C.compile_expression(e, Vobjs)(x)), "evaluate": _scalar(e.evaluate(dict(pt))),
+                   "CompiledExpression": _scalar(C.CompiledExpression(e, Vobjs).value(x))}
+        except Exception as ex:
+            rec.violation("same-name-views:raises:" + type(ex).__name__, {"show": {"expr": A.render(node), "V": V}, "error": repr(ex)[:200]})
+            rec.cmp(1, cell)
+            continue
+        for route, g in got.items():
+            rec.cmp(1, cell)
+            if not close(g, want, RTOL, t.mag)[0]:
+                rec.violation(f"{route}:mismatch-after-same-named-view", {"show": {"expr": A.render(node), "V": V, "batch": [A.render(v) for v in views]},
+                                                                           "route": route, "got": g, "want": want})
+
+
 def run(ctx, rec):
     rng = ctx.rng
     for case in X.directed_cases(rng, ctx.mine):
         run_case(case, rec)
+    for i, (cell, views, mk) in enumerate(same_name_batches()):
+        if ctx.mine(i):
+            vs = list(views)
+            rng.shuffle(vs)
+            run_same_name_batch(rec, rng, cell, vs, mk)
     n = 0
     target = N_RANDOM[ctx.tier]
     while n < target and not rec.out_of_time():
